@@ -154,6 +154,15 @@ macro_rules! field_checks {
                             }
                         }
                     }
+                    // try_sqrt answers Some / None as the float method does (NaN is refused: nalgebra's
+                    // Cholesky relies on it); zero is left out - see DESIGN 10.4
+                    if re != 0.0 {
+                        $st.evaluations += 1;
+                        let (g, w) = (ComplexField::try_sqrt(x.clone()).is_some(), ComplexField::try_sqrt(xf).is_some());
+                        if g != w {
+                            $st.violation(Violation { sig: format!("method try_sqrt {tn} special values"), case: json!({"type": tn, "x": parts_to_json(&px)}), what: format!("try_sqrt at real part {re:e} is {} but the float method gives {}", if g { "Some" } else { "None" }, if w { "Some" } else { "None" }) });
+                        }
+                    }
                     if ComplexField::is_finite(&x) != xf.is_finite() || RealField::is_sign_positive(&x) != xf.is_sign_positive() || RealField::is_sign_negative(&x) != xf.is_sign_negative() {
                         $st.violation(Violation { sig: format!("method predicates {tn} special values"), case: json!({"type": tn, "x": parts_to_json(&px)}), what: format!("is_finite / is_sign_* not decided by the real part {re:e} (derivative parts {dv:e})") });
                     }
